@@ -17,6 +17,7 @@ import LlgVerif.Model.Inline
 import LlgVerif.Spec.Json
 import LlgVerif.Model.FloatRange
 import LlgVerif.Model.NumSat
+import LlgVerif.Model.Earley
 open LlgVerif Drv
 
 def wordsOf (l : List Nat) : List Word := l.map (fun n => BitVec.ofNat 32 n)
@@ -44,6 +45,7 @@ structure St where
   sharedTbl : List Nat := []
   cfgs : List (Nat × (Cfg.Gram Nat × Nat)) := []
   jschemas : List (Nat × Js.Json) := []
+  eys : List (Nat × Ey.CG) := []
 
 /-- DFA over byte classes: `cls[b]` in `0..k`, `trans[q*k + c]` = successor, `≥ n` = dead. -/
 structure TDfa where
@@ -520,6 +522,43 @@ def handleJson (st : St) (args : List String) : St × String :=
     | _, _ => (st, "bad-op")
   | _ => (st, "bad-op")
 
+def insertItem (x : Nat × Nat) : List (Nat × Nat) → List (Nat × Nat)
+  | [] => [x]
+  | y :: ys => if x.1 < y.1 || (x.1 == y.1 && x.2 ≤ y.2) then x :: y :: ys else y :: insertItem x ys
+
+def showRow (r : List (Nat × Nat)) : String :=
+  let sorted := r.foldl (fun acc x => insertItem x acc) []
+  if sorted.isEmpty then "-" else ",".intercalate (sorted.map (fun it => s!"{it.1}:{it.2}"))
+
+/-- `ey def <id> <start> <rhs,...> <lhsOf,...> <rules/nullable/lexeme;...>` (rules `a+b+c` or `-`, lexeme number or `-`);
+`ey rows <id> <l,l|l|...>` (`-` for no lexemes scanned yet) -> the rows and the accepting flag -/
+def handleEy (st : St) (args : List String) : St × String :=
+  match args with
+  | ["def", id, start, rhs, lhs, syms] =>
+    let sym? := fun (e : String) => match e.splitOn "/" with
+      | [rs, nl, lx] => do
+        let rules ← (if rs = "-" then some [] else (rs.splitOn "+").mapM (·.toNat?))
+        let lexeme ← (if lx = "-" then some none else lx.toNat?.map some)
+        pure ({ rules := rules, nullable := nl = "1", lexeme := lexeme } : Ey.SymD)
+      | _ => none
+    match parseNat? id, parseNat? start, parseNatList? rhs, parseNatList? lhs, (syms.splitOn ";").mapM sym? with
+    | some id, some start, some rhs, some lhs, some syms =>
+      let g : Ey.CG := { start := start, rhs := rhs.toArray, lhsOf := lhs.toArray, syms := syms.toArray }
+      if !g.wf then (st, "not-wf")
+      else if !g.nullableClosed then (st, "nullable-flags-not-closed")
+      else ({ st with eys := (id, g) :: st.eys.filter (·.1 ≠ id) }, "ok")
+    | _, _, _, _, _ => (st, "bad-op")
+  | ["rows", id, lexs] =>
+    match parseNat? id, (if lexs = "-" then some [] else (lexs.splitOn "|").mapM parseNatList?) with
+    | some id, some lexs =>
+      match st.eys.find? (·.1 = id) with
+      | some (_, g) =>
+        let rows := Ey.runRows g lexs
+        (st, "ok " ++ ";".intercalate (rows.map showRow) ++ " acc=" ++ showBool (Ey.accepting g rows))
+      | none => (st, "bad-op")
+    | _, _ => (st, "bad-op")
+  | _ => (st, "bad-op")
+
 def parseOptInt? (s : String) : Option (Option Int) :=
   if s = "none" then some none
   else if s.startsWith "-" then (s.drop 1).toString.toNat?.map (fun n => some (-(n : Int)))
@@ -654,6 +693,7 @@ def step (st : St) (line : String) : St × String :=
   | "cfg" :: args => handleCfg st args
   | "opt" :: args => (st, handleOpt args)
   | "json" :: args => handleJson st args
+  | "ey" :: args => handleEy st args
   | "rb" :: args => handleRb st args
   | ["reset"] => ({}, "ok")
   | _ => (st, "bad-op")
